@@ -237,10 +237,11 @@ META = {
     },
     "C16": {
         "level": "fault_enumeration",
-        "evaluations": ["crash_runs"],
+        "evaluations": ["crash_runs", "fault_runs", "fault_crash_runs"],
         "required": ["scenarios_traced", "crash_runs", "killed_at:write", "killed_at:openat", "killed_at:renameat", "killed_at:mkdirat", "killed_at:close",
-                     "later_run_replayed", "later_run_found_nothing", "second_saves_after_kill"],
-        "show": ["scenarios_traced", "save_syscalls", "crash_runs", "later_run_replayed", "later_run_found_nothing", "crash_point_not_reached"],
+                     "later_run_replayed", "later_run_found_nothing", "second_saves_after_kill",
+                     "fault_runs", "fault_crash_runs", "fault_injected:renameat=EXDEV", "fault_killed_at:unlinkat"],
+        "show": ["scenarios_traced", "save_syscalls", "crash_runs", "later_run_replayed", "later_run_found_nothing", "crash_point_not_reached", "fault_runs", "fault_crash_runs"],
         "rule": "a child process (main goroutine locked to the main thread) runs a real failing Check with fail files on in an empty directory under "
                 "strace; the reference trace lists every file-system-affecting system call of the main thread between two marker calls (mkdirat, openat, "
                 "each write, close, renameat, unlinkat); for EVERY such (syscall, j-th occurrence) the child is re-run with strace -e inject=<sc>:signal=KILL:"
@@ -252,7 +253,7 @@ META = {
                                         "strace 6.1 fault injection counts calls per thread; the evidence records the call at which each kill landed"],
         "level_text": "Exhaustive enumeration of crash points at system-call granularity for each scenario (strictly finer than failpoints), with a "
                       "directory-state and trace oracle; the set of scenarios is sampled.",
-        "technique": "strace fault injection (SIGKILL on entry to the j-th syscall) enumerating every crash point of a save; directory + syscall-trace oracle",
+        "technique": "strace fault injection (SIGKILL on entry to the j-th syscall, and errno injection followed by SIGKILL on the error path) enumerating every crash point of a save; directory + syscall-trace oracle",
         "shards": 8,
         "max_inconclusive": 0.05,
     },
@@ -425,6 +426,11 @@ _MORE9 = {
     "C14": "Half of the Errorf calls of the workers pass a slice that the worker overwrites as soon as Errorf has returned; the message must show the value at the call.",
     "C17": "Every other of the 400 unusable entries of the many-empty-files child is a directory with the name of a fail file.",
 }
+_MORE10 = {
+    "C16": "Family fault: one file-system call of the save (mkdirat, openat, write, close, renameat, unlinkat; first and last call of every name in the quick tier, every call in the thorough tier) is made to FAIL (ENOSPC, EIO, EDQUOT, EACCES, EMFILE, EXDEV, EBUSY, EROFS by strace error injection); the faulted run is judged by the same trace and directory oracles, and the process is then killed at every later file-system call (of another name - strace keeps one injection per call name) of the error path the library takes.",
+}
+for _k, _v in _MORE10.items():
+    _MORE9[_k] = _MORE9.get(_k, "") + " " + _v
 for _k, _v in _MORE9.items():
     _MORE8[_k] = _MORE8.get(_k, "") + " " + _v
 for _k, _v in _MORE8.items():
